@@ -54,7 +54,7 @@ def _domain(symx, V, clean):
     symx.require_feasible()
 
 
-def _mk(shape, G, bpms, clean, body, budget_s):
+def _mk(shape, G, bpms, clean, body, budget_s, wraw=None):
     symx, mods = _setup()
     E = mods["simfile.timing.engine"]; Beat = mods["simfile.timing"].Beat
     if not clean and not (shape[3] and (shape[1] or shape[2])):
@@ -63,13 +63,21 @@ def _mk(shape, G, bpms, clean, body, budget_s):
 
     def run():
         V = tc.sym_timing(shape, G, sym_bpm=False, bpm_values=bpms, den=tc.time_unit_den(bpms))
+        if wraw:
+            # warp lengths written as decimals that are not multiples of 1/48 (0.333, 0.667, ...): the engine is expected to
+            # treat each as the nearest tick count, which is what the oracle uses
+            from fractions import Fraction as _F
+            import z3 as _z3
+            for i, w in enumerate(wraw):
+                symx.CTL.assume(V["lw"][i] == int(_F(w) * 48 + _F(1, 2)))
+            V["wraw"] = list(wraw)
         _domain(symx, V, clean)
         eng = E.TimingEngine(tc.build_td(mods, V))
         return body(symx, mods, E, Beat, V, eng)
     return symx.explore(run, budget_s=budget_s)
 
 
-def ob_roundtrip(shape, G, bpms, clean, budget_s=120):
+def ob_roundtrip(shape, G, bpms, clean, wraw=None, budget_s=120):
     """for every tick q outside every warp's [start,end): beat_at(time_at(q)) == q"""
     import z3
 
@@ -79,7 +87,7 @@ def ob_roundtrip(shape, G, bpms, clean, budget_s=120):
         q = Beat(symx.SymInt(kq), 48)
         back = eng.beat_at(eng.time_at(q))
         return _eq(symx, back, tc.tick(kq)), ("roundtrip",)
-    return _mk(shape, G, bpms, clean, body, budget_s)
+    return _mk(shape, G, bpms, clean, body, budget_s, wraw)
 
 
 def ob_in_pause(shape, G, bpms, clean, budget_s=120):
@@ -128,7 +136,7 @@ def ob_near(shape, G, bpms, clean, budget_s=120):
     return _mk(shape, G, bpms, clean, body, budget_s)
 
 
-def ob_warp_instant(shape, G, bpms, clean, budget_s=120):
+def ob_warp_instant(shape, G, bpms, clean, wraw=None, budget_s=120):
     """at the time a warp segment starts: tag WARP -> the segment's start; default -> the furthest beat reached at that time
     (segment end, or the first stop/delay at or after the start if that comes first)"""
     import z3
@@ -170,7 +178,7 @@ def ob_warp_instant(shape, G, bpms, clean, budget_s=120):
         from vlib import symx
         r = symx.Result(); r.status = "discharged"; r.reason = "empty family"
         return r
-    return _mk(shape, G, bpms, clean, body, budget_s)
+    return _mk(shape, G, bpms, clean, body, budget_s, wraw)
 
 
 def ob_monotone(shape, G, bpms, clean, budget_s=120):
@@ -255,6 +263,16 @@ def obligations(tier):
             bp = BPMSETS[s[0]][0]
             for f in ("ob_roundtrip", "ob_warp_instant"):
                 obs.append(dict(name=f"{f[3:]}{s}/bpm{bp}/clean/G{G}", func=f, args=(s, G, bp, True), budget_s=b, bounds=f"shape {s}, BPM {bp}, clean domain"))
+        # BPM values that are not multiples of 1/48 (a rounding of the BPM itself shows only after many ticks): far queries
+        for s, bp in (((0, 0, 0, 0), ("1.01",)), ((1, 0, 0, 0), ("1.01", "7.77")), ((0, 1, 0, 0), ("150.01",))):
+            for f in ("ob_roundtrip", "ob_near"):
+                obs.append(dict(name=f"{f[3:]}{s}/bpm{bp}/clean/G96", func=f, args=(s, 96, bp, True), budget_s=b, bounds=f"shape {s}, BPM {bp} (not multiples of 1/48), ticks 0..96, queries up to 288 ticks"))
+        # warp lengths that are not multiples of 1/48 when written as decimals
+        for s, wr in (((0, 0, 0, 1), ("0.333",)), ((0, 0, 0, 2), ("0.667", "0.083")), ((0, 1, 0, 1), ("0.167",))):
+            bp = BPMSETS[s[0]][0]
+            for f in ("ob_roundtrip", "ob_warp_instant"):
+                obs.append(dict(name=f"{f[3:]}{s}/bpm{bp}/warp-lengths{wr}/G48", func=f, args=(s, 48, bp, True, wr), budget_s=b,
+                                bounds=f"shape {s}, BPM {bp}, warp lengths given as the decimals {wr} (not tick aligned), ticks 0..48"))
         # three warps in every arrangement (chains: nested, overlapping, touching, extended then extended again)
         s = (0, 0, 0, 3)
         bp = BPMSETS[0][0]
@@ -280,6 +298,8 @@ def replay(data):
     den = tc.time_unit_den(bpms)
     mm["__den__"] = str(den)
     c = tc.model_timing(mm, shape)
+    if len(data["args"]) > 4 and data["args"][4]:   # warp lengths were given as decimals: use exactly those in the replay
+        c["warps"] = [(k, Fraction(w)) for (k, _), w in zip(c["warps"], data["args"][4])]
     m = dict(m)
     for k in ("t", "t2"):
         if "n" + k in m:
